@@ -7,15 +7,22 @@ The patch is applied to a scratch copy of /repo (removed afterwards) and the pro
 import sys, os, subprocess, tempfile, shutil, re, glob, json
 root = os.path.dirname(os.path.dirname(os.path.abspath(__file__)))
 only = sys.argv[1:]
-patches = sorted(glob.glob(os.path.join(root, "selftest", "*.patch")))
+patches = sorted(glob.glob(os.path.join(root, "selftest", "*.patch"))) + sorted(glob.glob(os.path.join(root, "seeded", "*", "patch.diff")))
 bad = 0
 results = []
 for p in patches:
     name = os.path.basename(p)
     text = open(p).read()
-    prop = re.search(r"^# property:\s*(\S+)", text, re.M).group(1)
-    m = re.search(r"^# breaks:\s*(.+)$", text, re.M)
-    breaks = m.group(1).strip() if m else None
+    if name == "patch.diff":
+        name = "seeded/" + os.path.basename(os.path.dirname(p))
+        meta = json.load(open(os.path.join(os.path.dirname(p), "meta.json")))
+        prop, breaks = meta["property"], meta.get("expect_obligation", "obligation=")
+        if meta.get("not_detected"):
+            print("skip %-40s recorded as not detected: %s" % (name, meta["not_detected"])); continue
+    else:
+        prop = re.search(r"^# property:\s*(\S+)", text, re.M).group(1)
+        m = re.search(r"^# breaks:\s*(.+)$", text, re.M)
+        breaks = m.group(1).strip() if m else None
     if only and not any(o in name or o == prop for o in only):
         continue
     scratch = tempfile.mkdtemp(prefix="verif-scratch.")
